@@ -273,7 +273,7 @@ def check(ctx):
     # C17-f: the recovery the interpolator may reuse belongs to the current simulation (shared effect rule of C10)
     from .c10 import family_rules
 
-    family_rules(ctx, {"a": "C17-f", "c": "C17-i"})
+    family_rules(ctx, {"a": "C17-f", "c": "C17-i", "b": "C17-j"})  # j: the scalar setting is configuration - no run rewrites it
     from .c04 import check_all_steps_and_storage
 
     check_all_steps_and_storage(ctx, "C17-g", None)
